@@ -325,7 +325,7 @@ func prunedLongCase(r *lib.Run, idx int) {
 	switch class {
 	case 0: // just below the boundary, then across it
 		f1, f2 = window-1-uint64(rng.IntN(30)), window+uint64(rng.IntN(12))
-		if rng.IntN(2) == 0 {
+		if idx%8 == 4 {
 			f1 = window - 1 // the floor is the LAST block of a window: that window's filter must survive
 		}
 	case 1: // exactly on the boundary, then inside the next window
